@@ -429,6 +429,15 @@ func runRealCase(cfg *realCfg, budget time.Duration) (res realResult) {
 			return
 		}
 		defer x.Close()
+		// a second intruder that shares the peer's PORT on another loopback address
+		// (a source filter that compares ports only lets it through)
+		var x2 *net.UDPConn
+		if !cfg.V6 {
+			x2, _ = net.ListenUDP("udp4", &net.UDPAddr{IP: net.IPv4(127, 0, 0, 2), Port: frontAddr.Port})
+			if x2 != nil {
+				defer x2.Close()
+			}
+		}
 		cliPort := 0
 		if cliSock != nil {
 			cliPort = cliSock.LocalAddr().(*net.UDPAddr).Port
@@ -450,6 +459,10 @@ func runRealCase(cfg *realCfg, budget time.Duration) (res realResult) {
 			binary.LittleEndian.PutUint32(nonce[:], uint32(sn))
 			x.WriteToUDP(crypto.Seal(nonce[:], seg), target)
 			res.IntruderSent++
+			if x2 != nil {
+				nonce[5] ^= 0x55
+				x2.WriteToUDP(crypto.Seal(nonce[:], seg), target)
+			}
 		}
 		// they must all be counted as input errors and leave the core untouched
 		deadline := time.Now().Add(5 * time.Second)
